@@ -431,7 +431,7 @@ PROPS['C18'] = {
 
 
 PROPS['C06'] = {
-    'theorems': ['RQ.Par.C06_apply_phase', 'RQ.Par.C06_save_phase', 'RQ.Par.C06_error_index', 'RQ.Par.C06_queues_sorted', 'RQ.Par.C06_frame', 'RQ.Par.C06_local', 'RQ.Par.C06_commute', 'RQ.Par.C06_disjoint'],
+    'theorems': ['RQ.Par.C06_apply_phase', 'RQ.Par.C06_save_phase', 'RQ.Par.C06_error_index', 'RQ.Par.C06_apply_eq_sequential', 'RQ.Par.C06_parallel_eq_sequential_tree', 'RQ.Par.C06_queues_sorted', 'RQ.Par.C06_frame', 'RQ.Par.C06_local', 'RQ.Par.C06_commute', 'RQ.Par.C06_disjoint'],
     'verdict': 'C06',
     'jobs': [{'quick': ['pushsched', 'seed={seed}', 'n=900', 'perws=3', 'fail=75', 'morefail=70'], 'thorough': ['pushsched', 'seed={seed}', 'n=30000', 'perws=6', 'fail=75', 'morefail=70']}] +
             push_jobs(['threads=2,3,4,8,16', 'inv=2'], ['threads=2,3,4,8,16', 'inv=3'], nq=2500, nt=60000),
